@@ -70,6 +70,15 @@ func diffMapMap(dst, src map[string]any) (any, error) {
 			continue
 		}
 
+		if !mergeable(v, v2) {
+			// No layer can turn src[k] into dst[k] in place (e.g. a scalar
+			// over a non-empty map). Replace this whole map instead.
+			replace := maps.Clone(dst)
+			replace["$replace"] = true
+
+			return replace, nil
+		}
+
 		v3, err := diff(v, v2)
 		if err != nil {
 			return nil, err
@@ -94,6 +103,24 @@ func diffMapMap(dst, src map[string]any) (any, error) {
 	}
 
 	return ret, nil
+}
+
+// mergeable reports whether some layer value can be merged onto src to
+// produce dst: bkl refuses a scalar or list over a non-empty map and a
+// scalar or map over a list.
+func mergeable(dst, src any) bool {
+	switch src2 := src.(type) {
+	case map[string]any:
+		_, ok := dst.(map[string]any)
+		return ok || len(src2) == 0
+
+	case []any:
+		_, ok := dst.([]any)
+		return ok
+
+	default:
+		return true
+	}
 }
 
 func diffList(dst []any, src any) (any, error) {
